@@ -17,28 +17,38 @@ pub struct Knap {
     pub w: Vec<u8>,
     pub cap: u8,
     pub p: Vec<Cost>,
+    pub copies: u8, // each item may be taken 0..=copies times (1 = classic 0/1 knapsack)
 }
 impl Knap {
     pub fn new(n: usize, seed: u64, nsym: usize) -> Knap {
+        Knap::with_copies(n, seed, nsym, 1)
+    }
+    pub fn with_copies(n: usize, seed: u64, nsym: usize, copies: u8) -> Knap {
         let mut r = Rng(seed ^ 0x6b6e);
         let w: Vec<u8> = (0..n).map(|_| 1 + r.below(4) as u8).collect();
         let tot: u32 = w.iter().map(|x| *x as u32).sum();
-        let cap = (tot / 2 + r.below(2) as u32).max(1) as u8;
+        let cap = ((tot * copies as u32) / 2 + r.below(2) as u32).max(1).min(60) as u8;
         let p = (0..n).map(|i| if i < nsym { Cost::input(&format!("p{}", i), -50, 100) } else { Cost::lit(r.below(30) as i64 - 5) }).collect();
-        Knap { n, w, cap, p }
+        Knap { n, w, cap, p, copies }
     }
     pub fn optimum(&self) -> Cost {
         let mut best: Option<Cost> = None;
-        for mask in 0..(1u32 << self.n) {
-            let wt: u32 = (0..self.n).filter(|i| mask & (1 << i) != 0).map(|i| self.w[i] as u32).sum();
-            if wt > self.cap as u32 {
-                continue;
-            }
+        let base = self.copies as u32 + 1;
+        let total = base.pow(self.n as u32);
+        for code in 0..total {
+            let mut c = code;
+            let mut wt = 0u32;
             let mut v = Cost::lit(0);
             for i in 0..self.n {
-                if mask & (1 << i) != 0 {
+                let q = c % base;
+                c /= base;
+                wt += q * self.w[i] as u32;
+                for _ in 0..q {
                     v = v.plus(self.p[i]);
                 }
+            }
+            if wt > self.cap as u32 {
+                continue;
             }
             best = Some(match best {
                 None => v,
@@ -57,13 +67,13 @@ impl Knap {
                 return Err(format!("bad or duplicate variable {}", i));
             }
             seen[i] = true;
-            match d.value.conc() {
-                0 => {}
-                1 => {
-                    wt += self.w[i] as u32;
-                    v = v.plus(self.p[i]);
-                }
-                x => return Err(format!("decision value {}", x)),
+            let q = d.value.conc();
+            if q < 0 || q > self.copies as i64 {
+                return Err(format!("decision value {}", q));
+            }
+            for _ in 0..q {
+                wt += self.w[i] as u32;
+                v = v.plus(self.p[i]);
             }
         }
         if seen.iter().any(|s| !s) {
@@ -88,14 +98,14 @@ impl Problem for Knap {
     }
     fn transition(&self, s: &KState, d: Decision) -> KState {
         let i = d.variable.id();
-        KState { depth: s.depth + 1, cap: s.cap - if d.value.conc() == 1 { self.w[i] } else { 0 } }
+        KState { depth: s.depth + 1, cap: s.cap - (d.value.conc() as u8) * self.w[i] }
     }
     fn transition_cost(&self, _: &KState, _: &KState, d: Decision) -> Cost {
-        if d.value.conc() == 1 {
-            self.p[d.variable.id()]
-        } else {
-            Cost::lit(0)
+        let mut v = Cost::lit(0);
+        for _ in 0..d.value.conc() {
+            v = v.plus(self.p[d.variable.id()]);
         }
+        v
     }
     fn next_variable(&self, depth: usize, _: &mut dyn Iterator<Item = &KState>) -> Option<Variable> {
         if depth < self.n {
@@ -105,10 +115,11 @@ impl Problem for Knap {
         }
     }
     fn for_each_in_domain(&self, var: Variable, s: &KState, f: &mut dyn DecisionCallback) {
-        if self.w[var.id()] <= s.cap {
-            f.apply(Decision { variable: var, value: Cost::lit(1) });
+        for q in (0..=self.copies).rev() {
+            if q * self.w[var.id()] <= s.cap {
+                f.apply(Decision { variable: var, value: Cost::lit(q as i64) });
+            }
         }
-        f.apply(Decision { variable: var, value: Cost::lit(0) });
     }
 }
 impl Relaxation for Knap {
@@ -164,10 +175,11 @@ pub struct KnapCase {
     pub width: usize,
     pub dom: String, // off | full | partial
     pub props: Vec<String>,
+    pub copies: u8,
 }
 
 pub fn body<D: Dd2, C: Cache<State = KState> + Default>(c: &KnapCase) {
-    let k = Knap::new(c.n, c.seed, c.nsym);
+    let k = Knap::with_copies(c.n, c.seed, c.nsym, c.copies.max(1));
     let opt = k.optimum();
     let ranking = ByCap;
     let fixed = FixedWidth(c.width.max(1));
@@ -187,7 +199,7 @@ pub fn body<D: Dd2, C: Cache<State = KState> + Default>(c: &KnapCase) {
     if solver.explored() >= 2 {
         note("explored_ge2");
     }
-    for tag in c.props.iter().filter(|p| ["C10", "C01"].contains(&p.as_str())) {
+    for tag in c.props.iter().filter(|p| ["C10", "C01", "C02"].contains(&p.as_str())) {
         if !comp.is_exact {
             panic!("SYMX-LABEL[{}:is-exact] uninterrupted run is not exact", tag);
         }
